@@ -45,21 +45,22 @@ section Full
 variable (lt : K → K → Bool) (P : Params K) (tree : Tree K V) (progs : List (List (COp K V)))
   (hkp : KParams lt P) (ht : TreeOk none tree) (hord : OrdTree lt tree) (hsep : SepTree lt tree)
   (ho : tree.order = P.order) (hp : PadOk P) (hd : Disciplined progs)
-include hkp ht hord hsep ho hp hd
+  (hdel : 4 ≤ tree.order ∨ NoDelete progs)
+include hkp ht hord hsep ho hp hd hdel
 
 /-- **C04 (invariant).** Every open cursor is positioned with respect to some bound (in the
     form `CursorPosW` always; in the exact form `CursorPos` unless the thread is between the
     two halves of a hop, where the index has run past the leaf). -/
 theorem C04_cursor_invariant (c : Config K V) (hr : Reachable (Config.init P tree progs) c) :
     ∀ th ∈ c.threads, CursorPosW lt c.tree th ∧ (isHop th.park = false → CursorPos lt c.tree th) :=
-  reachable_cursorPos kblocks_ok lt P tree progs hkp ht hord hsep ho hp hd c hr
+  reachable_cursorPos kblocks_ok lt P tree progs hkp ht hord hsep ho hp hd hdel c hr
 
 /-- **C04 (what a positioned cursor has ahead).** In a reachable configuration, for a cursor
     positioned w.r.t. bound `b`: ahead of it lies exactly the admitted part of the map. -/
 theorem C04_ahead_spec (c : Config K V) (hr : Reachable (Config.init P tree progs) c)
     (b : Bound K) (leaf : Nat) (i : Int) (hpos : CurPosW lt c.tree b leaf i) :
     c.tree.ahead leaf i = c.tree.abs.filter (fun p => b.admits lt p.1) :=
-  let h := reachable_kfinv' lt P tree progs hkp ht hord hsep ho hp hd c hr
+  let h := reachable_kfinv' lt P tree progs hkp ht hord hsep ho hp hd hdel c hr
   hpos.aheadSpec h.kp.swo h.cinv.s.tree h.kinv.ord
 
 /-- **C04 (successor).** The first pair ahead of a positioned cursor is the least admitted key
@@ -70,7 +71,7 @@ theorem C04_successor (c : Config K V) (hr : Reachable (Config.init P tree progs
       b.admits lt k = true ∧ (k, v) ∈ c.tree.abs ∧ Spec.lookup lt c.tree.abs k = some v ∧
       ∀ p ∈ c.tree.abs, b.admits lt p.1 = true → p = (k, v) ∨ lt k p.1 = true) ∧
     (c.tree.ahead leaf i = [] ↔ ∀ p ∈ c.tree.abs, b.admits lt p.1 = false) :=
-  let h := reachable_kfinv' lt P tree progs hkp ht hord hsep ho hp hd c hr
+  let h := reachable_kfinv' lt P tree progs hkp ht hord hsep ho hp hd hdel c hr
   ⟨fun _ _ _ hh => hpos.head_least h.kp.swo h.cinv.s.tree h.kinv.ord hh,
    hpos.ahead_nil_iff h.kp.swo h.cinv.s.tree h.kinv.ord⟩
 
@@ -88,7 +89,7 @@ theorem C04_newScanner (c c' : Config K V) (hr : Reachable (Config.init P tree p
         some (some want, (startIndex c.P {} start lf : Int) - 1) ∧
       CurPos lt c'.tree (.ge start) want ((startIndex c.P {} start lf : Int) - 1) ∧
       c'.tree.ahead want ((startIndex c.P {} start lf : Int) - 1) = Spec.from lt c'.tree.abs start :=
-  step_newScanner kblocks_ok lt P tree progs hkp ht hord hsep ho hp hd c c' hr t hstep hth hpk hl h0
+  step_newScanner kblocks_ok lt P tree progs hkp ht hord hsep ho hp hd hdel c c' hr t hstep hth hpk hl h0
 
 /-- **C04 (the bound persists).** A step of ANOTHER thread — any writer, with whatever splits,
     borrows, merges it performs — keeps the same bound valid for a resting cursor. -/
@@ -96,7 +97,7 @@ theorem C04_bound_persists (c c' : Config K V) (hr : Reachable (Config.init P tr
     (hstep : c.step t = some c') (b : Thread K V) (hj : c.threads[j]? = some b) (hne : j ≠ t)
     {leaf : Nat} {i : Int} (hcur : b.cursor = some (some leaf, i)) {bd : Bound K}
     (hpos : CurPosW lt c.tree bd leaf i) : CurPosW lt c'.tree bd leaf i := by
-  have h := reachable_kfinv' lt P tree progs hkp ht hord hsep ho hp hd c hr
+  have h := reachable_kfinv' lt P tree progs hkp ht hord hsep ho hp hd hdel c hr
   obtain ⟨_, th, hth, hframe⟩ := step_cinv blocks_ok c c' t hstep h.cinv
   obtain ⟨th', hth', hen, _⟩ := step_shape hstep
   rw [hth] at hth'; cases hth'
@@ -121,7 +122,7 @@ theorem C04_scan (c c' : Config K V) (hr : Reachable (Config.init P tree progs) 
         (∃ nx, startOp t s1 .scan =
             ({ s1 with cursor := some (some leaf, i + 1) }, .park (.want (.node nx) (.hop leaf nx))) ∧
           c'.tree.ahead leaf (i + 1) = c'.tree.ahead leaf i)) :=
-  exec_scan kblocks_ok lt P tree progs hkp ht hord hsep ho hp hd c c' hr t hstep hx hcur hex
+  exec_scan kblocks_ok lt P tree progs hkp ht hord hsep ho hp hd hdel c c' hr t hstep hx hcur hex
 
 /-- **C04 (hop).** The step that acquires the next leaf (the current one still held) returns
     `true`, does not touch the tree, and consumes exactly the first pair ahead: the cursor
@@ -135,7 +136,7 @@ theorem C04_hop (c c' : Config K V) (hr : Reachable (Config.init P tree progs) c
     ∃ i shn k v, th.cursor = some (some cur, i) ∧ (∃ b, CurPosW lt c.tree b cur i) ∧
       c'.tree.look next = some shn ∧ shn.height = 0 ∧ shn.keys[0]? = some k ∧ shn.vals[0]? = some v ∧
       c.tree.ahead cur i = (k, v) :: c'.tree.ahead next 0 ∧ CurPos lt c'.tree (.gt k) next 0 :=
-  step_hop kblocks_ok lt P tree progs hkp ht hord hsep ho hp hd c c' hr t hstep hth hpk
+  step_hop kblocks_ok lt P tree progs hkp ht hord hsep ho hp hd hdel c c' hr t hstep hth hpk
 
 /-- **C04 (Pair).** `Pair` returns the pair the cursor rests on; it is an entry of the map at
     that moment, with the value stored for it now. -/
@@ -145,7 +146,7 @@ theorem C04_pair (c c' : Config K V) (hr : Reachable (Config.init P tree progs) 
     ∃ sh k v, c'.tree.look leaf = some sh ∧ startOp t s1 .pair = (s1, .done (.pair k v)) ∧
       sh.keys[i.toNat]? = some k ∧ sh.vals[i.toNat]? = some v ∧ (k, v) ∈ c'.tree.abs ∧
       Spec.lookup lt c'.tree.abs k = some v :=
-  exec_pair kblocks_ok lt P tree progs hkp ht hord hsep ho hp hd c c' hr t hstep hx hcur hex hi
+  exec_pair kblocks_ok lt P tree progs hkp ht hord hsep ho hp hd hdel c c' hr t hstep hx hcur hex hi
 
 end Full
 
